@@ -3,7 +3,7 @@ From Coq Require Import List Bool Arith Lia.
 From KV Require Import Model.Gate Proofs.Gate.
 Import ListNotations.
 
-Definition pre_index (p : ophase) : Prop := p = PToggled \/ p = PQueued \/ p = PRunning \/ p = PFailed \/ p = PLeaked.
+Definition pre_index (p : ophase) : Prop := p = PToggled \/ p = PQueued \/ p = PRunning.
 Definition in_first (p : ophase) : Prop := p = PChecked \/ p = PToggled.
 
 Ltac eqb_cases :=
@@ -159,6 +159,8 @@ Proof.
     specialize (I (kind (ost s o))). rewrite Heql in I. simpl in *. lia.
   - intro r0; unfold upd; destruct (Nat.eqb_spec r0 (kind (ost s o))) as [->|Hne]; [|apply I].
     specialize (I (kind (ost s o))). lia.
+  - intro r0; unfold upd; destruct (Nat.eqb_spec r0 (kind (ost s o))) as [->|Hne]; [|apply I].
+    specialize (I (kind (ost s o))). lia.
 Qed.
 
 Lemma st_k5 : forall lim s l s', gstep lim s l = Some s' ->
@@ -248,7 +250,13 @@ Proof.
           | match goal with H1 : ph (ost _ ?o) = PWaiting, H2 : gated (ost _ ?o) = false |- _ =>
               rewrite Hg in H2 by congruence; discriminate end
           | congruence ]].
-  all: split; [try assumption; try (unfold upd; eqb_cases; try lia; fail) |].
+  all: try match goal with Hph : ph (ost _ ?o) = PFailed |- _ =>
+              assert (kind (ost s o) <> 0) by (intro Hk0; destruct (proj2 (Hp o) Hk0); congruence) end.
+  all: try match goal with Hph : ph (ost _ ?o) = PRunning |- _ =>
+              assert (kind (ost s o) <> 0) by (intro Hk0; destruct (proj2 (Hp o) Hk0); congruence) end.
+  all: try match goal with Hlt : nrun _ (kind (ost _ ?o)) < _ |- _ =>
+              assert (kind (ost s o) <> 0) by (intro Hk0; rewrite Hk0 in Hlt; lia) end.
+  all: split; [try assumption; try (unfold upd; eqb_cases; try lia; try congruence; fail) |].
   all: try (split; [solve [timeout 20 crush2] |]).
   all: try (split; [solve [intros o1; unfold upd; eqb_cases; intros; try rewrite Hoff; simpl; try reflexivity;
                            try (apply Hg; congruence); auto] |]).
@@ -256,8 +264,7 @@ Proof.
   all: try solve [exists ob; unfold upd; eqb_cases; try congruence;
                   split; [first [right; assumption | apply in_remove_nat; split; [assumption | congruence] | assumption]
                          | split; assumption]].
-  all: idtac "LEFT".
-Abort.
+Qed.
 
 Lemma stuck_run : forall n tr s s', Stuck n s -> grun (Some n) s tr = Some s' -> Stuck n s'.
 Proof.
@@ -280,7 +287,8 @@ Proof. vm_compute. reflexivity. Qed.
 Lemma f11_stuck : Stuck 2 f11_state.
 Proof.
   unfold Stuck. split; [vm_compute; lia|].
-  split; [intro o; do 3 (destruct o as [|o]; [vm_compute; discriminate|]); vm_compute; discriminate|].
+  split; [intro o; do 3 (destruct o as [|o]; [vm_compute; split; [discriminate | intros _; split; discriminate]|]);
+          vm_compute; split; [discriminate | intros _; split; discriminate]|].
   split; [intro o; do 3 (destruct o as [|o]; [vm_compute; reflexivity|]); vm_compute; intro H; exfalso; apply H; reflexivity|].
   split; [intro r; destruct r as [|r]; vm_compute; [reflexivity | discriminate]|].
   exists 2. vm_compute. auto.
@@ -294,7 +302,7 @@ Theorem gate_limited_deadlock :
 Proof.
   exists f11_state. split; [exact f11_reached|]. split; [reflexivity|]. split; [reflexivity|]. split; [reflexivity|].
   intros tr s H. pose proof (stuck_run 2 tr f11_state s f11_stuck H) as (_ & Hp & _ & _ & (o & Hin & _)).
-  split; [eapply is_on_false_otog; eauto | exact Hp].
+  split; [eapply is_on_false_otog; eauto | intro o1; exact (proj1 (Hp o1))].
 Qed.
 
 
@@ -364,16 +372,13 @@ Proof.
   - unfold is_on in Hon. destruct (blocker s); [discriminate | reflexivity].
   - intros r Hw Hx. destruct (listed s r) eqn:El; [reflexivity|].
     rewrite (is_on_false_rtog s r (k_rt r Hw Hx El)) in Hon; discriminate.
-  - intros o He. destruct (ph (ost s o)) eqn:Ep; simpl; try reflexivity; exfalso.
-    + destruct (Chke o Ep He) as [Hl Hx].
-      assert (Hw : won (wst s (kind (ost s o))) = true) by (apply Nbo; congruence).
-      rewrite (is_on_false_rtog s _ (k_rt _ Hw Hx Hl)) in Hon; discriminate.
-    + assert (Hm : mk (ost s o) = true) by (apply Ear; congruence).
-      rewrite (is_on_false_otog s o (Ot o Hm (or_introl Ep))) in Hon; discriminate.
-    + assert (Hm : mk (ost s o) = true) by (apply Ear; congruence).
-      rewrite (is_on_false_otog s o (Ot o Hm (or_intror (or_introl Ep)))) in Hon; discriminate.
-    + assert (Hm : mk (ost s o) = true) by (apply Ear; congruence).
-      rewrite (is_on_false_otog s o (Ot o Hm (or_intror (or_intror Ep)))) in Hon; discriminate.
+  - intros o He. destruct (ph (ost s o)) eqn:Ep; simpl; try reflexivity; exfalso;
+      try solve [ assert (Hm : mk (ost s o) = true) by (apply Ear; congruence);
+                  assert (Hpi : pre_index (ph (ost s o))) by (unfold pre_index; rewrite Ep; auto 6);
+                  rewrite (is_on_false_otog s o (Ot o Hm Hpi)) in Hon; discriminate ].
+    destruct (Chke o Ep He) as [Hl Hx].
+    assert (Hw : won (wst s (kind (ost s o))) = true) by (apply Nbo; congruence).
+    rewrite (is_on_false_rtog s _ (k_rt _ Hw Hx Hl)) in Hon; discriminate.
 Qed.
 
 Lemma pass_inv : forall lim s o s', gstep lim s (Pass o) = Some s' ->
@@ -579,7 +584,7 @@ Theorem stuck_forever : forall n s, Stuck n s ->
   forall tr s', grun (Some n) s tr = Some s' -> is_on s' = false /\ forall o, ph (ost s' o) <> PPassed.
 Proof.
   intros n s HS tr s' H. pose proof (stuck_run n tr s s' HS H) as (_ & Hp & _ & _ & (o & Hin & _)).
-  split; [eapply is_on_false_otog; eauto | exact Hp].
+  split; [eapply is_on_false_otog; eauto | intro o1; exact (proj1 (Hp o1))].
 Qed.
 
 (* the hypotheses of [gate_opens] are satisfiable and its conclusion is not trivial *)
@@ -623,3 +628,29 @@ Example gate_start_refused_with_two_slots :
   exists s, grun (Some 2) ginit f11_trace = Some s /\ gstep (Some 2) s (Start 2) = None /\ gstep (Some 3) s (Start 2) <> None.
 Proof. eexists; split; [vm_compute; reflexivity | split; vm_compute; [reflexivity | discriminate]]. Qed.
 
+
+(* ---------- F1702 (fixed by c050920): index_resource raises during an object's first event ---------- *)
+(* the trace recorded from the repaired code: one indexed kind, two pre-existing objects, no worker limit; the when=
+   callback of the index handler raises for the second object: its toggle is dropped all the same, the first object passes *)
+Definition f1702_trace : list label :=
+  [MakeBlocker; MakeRes 0 true; DropBlocker;
+   SeenCheck 0 0 false; SeenMake 0 0; Spawn 0 0 true true; Start 0; Indexed 0;
+   SeenCheck 0 1 false; SeenMake 0 1; Spawn 0 1 true true; Start 1; IndexRaised 1; Listed 0; Pass 0].
+
+Example raised_does_not_block :
+  exists s, grun None ginit f1702_trace = Some s /\ is_on s = true /\ ph (ost s 0) = PPassed /\ ph (ost s 1) = PFailed /\
+            early (ost s 1) = true.
+Proof. eexists. split; [vm_compute; reflexivity|]. repeat split; vm_compute; reflexivity. Qed.
+
+(* a later successful event of the failed object is processed and passes as usual *)
+Example raised_then_indexed_passes :
+  exists s, grun None ginit (f1702_trace ++ [Indexed 1; Pass 1; Retire 0; Retire 1]) = Some s /\ is_on s = true /\ nseen s 0 = 0.
+Proof. eexists. split; [vm_compute; reflexivity|]. split; vm_compute; reflexivity. Qed.
+
+
+(* what Ready says about an object first seen before its kind's LISTED, spelled out *)
+Lemma ready_early_cases : forall s o, Ready s -> early (ost s o) = true ->
+  ph (ost s o) = PWaiting \/ ph (ost s o) = PPassed \/ ph (ost s o) = PFailed \/ ph (ost s o) = PNew.
+Proof.
+  intros s o (_ & _ & H) He. specialize (H o He). destruct (ph (ost s o)); simpl in H; try discriminate; auto.
+Qed.
